@@ -96,7 +96,7 @@ def _strip(c):
 def _selftest(ctx, binary, cases):
     """The replay engine must reject a case whose expected value was altered."""
     for c in cases:
-        if c["want"] and not c["blame"] and c["want"][0]["type"] != "histogram":
+        if c["want"] and not (c["blame"]["metrics"] or c["blame"]["write"]) and c["want"][0]["type"] != "histogram":
             bad = copy.deepcopy(_strip(c))
             bad["want"][0]["val"]["uid"] += 1000
             bad["want"][0]["val"]["tok"] = "small"
@@ -114,9 +114,15 @@ def _classify(c, r, open_devs):
     v = _verdicts(r)
     if all(x == "want" for x in v.values()):
         return "ok"
-    if c.get("blame") and set(c["blame"]) <= open_devs and all(x in ("want", "want_dev") for x in v.values()):
-        return list(c["blame"])
-    return None
+    used = set()
+    for path, x in v.items():
+        if x == "want":
+            continue
+        blamed = set((c.get("blame") or {}).get(path, []))
+        if x != "want_dev" or not blamed or not blamed <= open_devs:
+            return None
+        used |= blamed
+    return sorted(used)
 
 
 def _judge(ctx, binary, cases, open_devs, findings):
@@ -134,7 +140,7 @@ def _judge(ctx, binary, cases, open_devs, findings):
         if k == "ok":
             continue
         if k is None:
-            ctx.violation({"case": dict(_strip(c), blame=c.get("blame", [])), "got": r["paths"]},
+            ctx.violation({"case": dict(_strip(c), blame=c.get("blame", {})), "got": r["paths"]},
                           "Prometheus exposition differs from the specification: %s" % json.dumps(
                               {p: {q: x.get(q) for q in ("missing", "extra", "bad")} for p, x in r["paths"].items()
                                if x["verdict"] != "want"})[:1500])
@@ -168,7 +174,7 @@ def run(ctx):
     _judge(ctx, binary, cases, set(open_devs), findings)
     for d, lst in sorted(findings.items()):
         ent = vlib.open_finding(ctx.prop, d) or {}
-        lst.sort(key=lambda cr: (len(cr[0]["blame"]), len(json.dumps(cr[0]["store"]))))
+        lst.sort(key=lambda cr: (len(cr[0]["blame"]["metrics"]) + len(cr[0]["blame"]["write"]), len(json.dumps(cr[0]["store"]))))
         c, r = lst[0]
         detail = {p: (x.get("missing") or x.get("bad") or [])[:2] for p, x in r["paths"].items() if x["verdict"] != "want"}
         ctx.known_finding(d, "%s [%s] e.g. store %s -> %s" % (
